@@ -84,5 +84,12 @@ def verify_function(program, lib, qual, timeout_ms=10000, only=None, shard=None,
             r.update(id=ident_k, kind=ob.kind, line=ob.lineno)
             r["time_s"] = round(r["time_s"], 4)
             out["obligations"].append(r)
+    # obligations already reduced to True by z3's simplifier when they were generated
+    if not only:
+        for j, (name, lineno, kind) in enumerate(ex.trivial):
+            if shard and j % shard[1] != shard[0]:
+                continue
+            out["obligations"].append(dict(id="%s::%s~%d" % (qual, name, j), kind=kind, line=lineno, status="proved", stage="s", backend="z3-simplify", time_s=0))
+    out["generated"] += len(ex.trivial)
     out["wall_s"] = round(time.time() - t0, 3)
     return out
